@@ -362,7 +362,7 @@ func assemble(t *testing.T, vc *verifChain, sc scenario, dir string, n int) []ma
 			booting = false
 			lines = append(lines, early...)
 			early = nil
-			out := map[string]any{"ev": m["ev"], "res": m["res"], "msg": m["msg"], "la": -1, "lp": -1, "root": -1, "results": -1, "nn": nn}
+			out := map[string]any{"ev": m["ev"], "fam": "vm", "res": m["res"], "msg": m["msg"], "la": -1, "lp": -1, "root": -1, "results": -1, "nn": nn}
 			if m["res"] == "ok" {
 				if m["ev"] == "start" {
 					accepted = heightOf(vc, "id", m["la_id"].(string))
